@@ -1,10 +1,247 @@
 package main
 
-import "govc/vc"
+import (
+	"context"
+	"encoding/json"
+	"fmt"
+	"go/types"
+	"os"
+	"os/exec"
+	"path/filepath"
+	"strings"
+	"time"
+
+	"govc/vc"
+)
 
 // tryReplay attempts to turn a failed obligation into a failing run of the
-// real code. It returns whether a failing input was confirmed and the path of
-// the replay file.
-func tryReplay(eng *vc.Engine, prop, obl, query, dir string) (bool, string) {
-	return false, ""
+// real code: it relaxes the query (Int quantifiers expanded over a small
+// range, location axioms dropped, slices bounded), asks z3 for a model of the
+// entry state, turns the parameters into Go literals, and runs the real
+// function in an in-package test injected with `go test -overlay` (nothing is
+// written to /repo). Safety obligations are confirmed by a panic, termination
+// obligations by a timeout. It returns whether a failing input was confirmed
+// and the path of the replay file (a Go test).
+func tryReplay(o *vc.Obligation, prop, dir string) (bool, string) {
+	if o == nil || o.ExpectSat {
+		return false, ""
+	}
+	safety := map[string]bool{"bounds": true, "nil": true, "div": true, "panic": true, "makeslice": true, "typeassert": true, "decreases": true}
+	if !safety[o.Kind] {
+		return false, ""
+	}
+	v := o.VC()
+	tgt := v.ReplayTarget()
+	if !tgt.OK {
+		return false, ""
+	}
+	terms, bounds := v.ReifyPlan()
+	var gv []string
+	for _, t := range terms {
+		gv = append(gv, t.Term)
+	}
+	tmp, err := os.MkdirTemp("", "govc-replay")
+	if err != nil {
+		return false, ""
+	}
+	defer os.RemoveAll(tmp)
+	qf := filepath.Join(tmp, "relaxed.smt2")
+	// first look for a counterexample in the first iteration of every loop
+	// (loop-head state == entry state): such a model is a genuine input; then
+	// without that restriction (the model is then a state, which may not replay)
+	var s, q string
+	for attempt := 0; attempt < 2; attempt++ {
+		extra := append([]string{}, bounds...)
+		if attempt == 0 {
+			if len(v.FirstIter) == 0 {
+				continue
+			}
+			extra = append(extra, v.FirstIter...)
+		}
+		q, err = vc.RelaxQuery(o.Query(), vc.ReifyBound+1, extra, gv)
+		if err != nil {
+			return false, ""
+		}
+		os.WriteFile(qf, []byte(q), 0o644)
+		ctx, cancel := context.WithTimeout(context.Background(), 40*time.Second)
+		out, _ := exec.CommandContext(ctx, "z3-new", "-T:30", "-smt2", qf).CombinedOutput()
+		cancel()
+		s = strings.TrimSpace(string(out))
+		if strings.HasPrefix(s, "sat") {
+			break
+		}
+	}
+	if dbg := os.Getenv("GOVC_DEBUG_REPLAY"); dbg != "" {
+		os.MkdirAll(dbg, 0o755)
+		os.WriteFile(filepath.Join(dbg, sanitizeName(o.Name)+".relaxed.smt2"), []byte(q), 0o644)
+		fmt.Fprintf(os.Stderr, "replay %s: solver says %.200s\n", o.Name, s)
+	}
+	if !strings.HasPrefix(s, "sat") {
+		return false, ""
+	}
+	vals := parseGetValueOut(s[3:])
+	if len(vals) < len(terms) {
+		return false, ""
+	}
+	model := vc.Model{}
+	for i, t := range terms {
+		model[t.Name] = vals[i]
+	}
+	// build the test
+	fn := v.Fn
+	qual := func(p *types.Package) string {
+		if p.Path() == tgt.PkgPath {
+			return ""
+		}
+		return p.Name()
+	}
+	imports := map[string]string{}
+	var collect func(t types.Type, depth int)
+	collect = func(t types.Type, depth int) {
+		if depth > 6 || t == nil {
+			return
+		}
+		switch u := t.(type) {
+		case *types.Named:
+			if p := u.Obj().Pkg(); p != nil && p.Path() != tgt.PkgPath {
+				imports[p.Path()] = p.Name()
+			}
+		case *types.Pointer:
+			collect(u.Elem(), depth+1)
+		case *types.Slice:
+			collect(u.Elem(), depth+1)
+		}
+	}
+	var args []string
+	recv := ""
+	for i, p := range fn.Params {
+		collect(p.Type(), 0)
+		lit := vc.GoLiteral(model, p.Type(), p.Name(), qual, 0)
+		if i == 0 && fn.Signature.Recv() != nil {
+			recv = lit
+			continue
+		}
+		args = append(args, lit)
+	}
+	// literals of nested foreign struct types may need imports too; keep it simple: scan text
+	var call string
+	if recv != "" {
+		call = fmt.Sprintf(tgt.CallExpr, recv, strings.Join(args, ", "))
+	} else {
+		call = fmt.Sprintf(tgt.CallExpr, strings.Join(args, ", "))
+	}
+	var imp strings.Builder
+	for path, name := range imports {
+		if strings.Contains(call, name+".") {
+			fmt.Fprintf(&imp, "\t%s %q\n", name, path)
+		}
+	}
+	mj, _ := json.MarshalIndent(model, "// ", " ")
+	src := fmt.Sprintf(`package %s
+
+// Replay of a verifier counterexample for property %s.
+// Failed obligation: %s
+// Clause: %s
+// Model of the entry state (relaxed query, bounded sizes):
+// %s
+
+import (
+	"fmt"
+	"testing"
+	"time"
+%s)
+
+func TestVerifReplay(t *testing.T) {
+	done := make(chan string, 1)
+	go func() {
+		defer func() {
+			if r := recover(); r != nil {
+				done <- fmt.Sprintf("PANIC: %%v", r)
+			}
+		}()
+		%s
+		done <- "RETURNED"
+	}()
+	select {
+	case s := <-done:
+		fmt.Println("VERIF-REPLAY:", s)
+	case <-time.After(3 * time.Second):
+		fmt.Println("VERIF-REPLAY: TIMEOUT")
+	}
+}
+`, tgt.PkgName, prop, o.Name, strings.ReplaceAll(o.Desc, "\n", " "), string(mj), imp.String(), discardCall(call, tgt.NResults))
+	testFile := filepath.Join(tmp, "zz_verif_replay_test.go")
+	os.WriteFile(testFile, []byte(src), 0o644)
+	ov := map[string]interface{}{"Replace": map[string]string{filepath.Join(tgt.Dir, "zz_verif_replay_test.go"): testFile}}
+	ovb, _ := json.Marshal(ov)
+	ovf := filepath.Join(tmp, "overlay.json")
+	os.WriteFile(ovf, ovb, 0o644)
+	ctx2, cancel2 := context.WithTimeout(context.Background(), 180*time.Second)
+	defer cancel2()
+	cmd := exec.CommandContext(ctx2, "bash", "-c", fmt.Sprintf("ulimit -v 12000000; cd %q && go test -mod=mod -overlay %q -vet=off -v -count=1 -timeout 60s -run '^TestVerifReplay$' .", tgt.Dir, ovf))
+	cmd.Env = append(os.Environ(), "GOFLAGS=-mod=mod", "GOPROXY=off")
+	tout, _ := cmd.CombinedOutput()
+	verdict := ""
+	for _, ln := range strings.Split(string(tout), "\n") {
+		if i := strings.Index(ln, "VERIF-REPLAY:"); i >= 0 {
+			verdict = strings.TrimSpace(ln[i+len("VERIF-REPLAY:"):])
+		}
+	}
+	if verdict == "" && (strings.Contains(string(tout), "fatal error") || strings.Contains(string(tout), "out of memory") || strings.Contains(string(tout), "signal: killed")) {
+		verdict = "CRASHED: " + firstLine(string(tout))
+	}
+	if dbg := os.Getenv("GOVC_DEBUG_REPLAY"); dbg != "" {
+		os.WriteFile(filepath.Join(dbg, sanitizeName(o.Name)+"_test.go.txt"), []byte(src), 0o644)
+		fmt.Fprintf(os.Stderr, "replay %s: verdict=%q output=%.600s\n", o.Name, verdict, string(tout))
+	}
+	confirmed := false
+	switch {
+	case o.Kind == "decreases":
+		confirmed = strings.HasPrefix(verdict, "TIMEOUT") || strings.HasPrefix(verdict, "CRASHED") || strings.HasPrefix(verdict, "PANIC")
+	default:
+		confirmed = strings.HasPrefix(verdict, "PANIC") || strings.HasPrefix(verdict, "CRASHED")
+	}
+	if !confirmed {
+		return false, ""
+	}
+	os.MkdirAll(dir, 0o755)
+	rp := filepath.Join(dir, sanitizeName(o.Name)+"_replay_test.go.txt")
+	hdr := fmt.Sprintf("// RESULT ON THE REAL CODE: %s\n// re-run: copy this file to %s/zz_verif_replay_test.go (or use go test -overlay) and run\n//   cd %s && go test -mod=mod -vet=off -count=1 -run '^TestVerifReplay$' .\n\n", verdict, tgt.Dir, tgt.Dir)
+	os.WriteFile(rp, []byte(hdr+src), 0o644)
+	return true, rp
+}
+
+func firstLine(s string) string {
+	for _, ln := range strings.Split(s, "\n") {
+		if strings.TrimSpace(ln) != "" {
+			return strings.TrimSpace(ln)
+		}
+	}
+	return ""
+}
+
+func discardCall(call string, n int) string {
+	if n == 0 {
+		return call
+	}
+	blanks := make([]string, n)
+	for i := range blanks {
+		blanks[i] = "_"
+	}
+	return strings.Join(blanks, ", ") + " = " + call
+}
+
+// parseGetValueOut extracts the values of "((t v) (t v) ...)".
+func parseGetValueOut(s string) []string {
+	forms, err := vc.ParseSx(s)
+	if err != nil || len(forms) == 0 || !forms[0].IsL {
+		return nil
+	}
+	var out []string
+	for _, p := range forms[0].List {
+		if p.IsL && len(p.List) == 2 {
+			out = append(out, p.List[1].String())
+		}
+	}
+	return out
 }
